@@ -15,7 +15,7 @@ func main() {
 		tier    = flag.String("tier", "quick", "quick|thorough")
 		workers = flag.Int("workers", runtime.NumCPU(), "worker count")
 		only    = flag.String("harness", "", "run only this harness function")
-		timeout = flag.Duration("timeout", 20*time.Minute, "time budget per harness")
+		timeout = flag.Duration("timeout", 45*time.Minute, "time budget per harness")
 		noRep   = flag.Bool("noreplay", false, "skip native replay / cross-check")
 		debug   = flag.Bool("debug", false, "print paths")
 		replay  = flag.String("replay", "", "re-execute a stored counterexample (replay file) deterministically with a call trace")
